@@ -8,6 +8,7 @@ write-through probe in both directions.
 from __future__ import annotations
 
 import numpy as np
+import pandas as pd
 from hypothesis import strategies as st
 
 from props.c06_index import make_key, selectors
@@ -39,7 +40,7 @@ def snap_all(objs):
         elif isinstance(o, np.ndarray):
             out[k] = (o.shape, o.tobytes())
         elif hasattr(o, "equals"):
-            out[k] = o.copy()
+            out[k] = o.copy(deep=True)
         else:
             out[k] = repr(o)
     return out
@@ -48,7 +49,7 @@ def snap_all(objs):
 def same_snap(a, b):
     for k in a:
         if hasattr(a[k], "equals"):
-            if not a[k].equals(b[k]):
+            if not (a[k].equals(b[k]) and list(a[k].columns) == list(b[k].columns) and a[k].index.equals(b[k].index)):
                 return k
         elif a[k] != b[k]:
             return k
@@ -67,6 +68,16 @@ def run_case(desc):
 
     if op == "from_df":
         df = x.to_df(index=desc["flag"])
+        if desc.get("k", 0) % 3 == 0:
+            # a hand-made table: calendar years in a plain unnamed index, one column per item or a value column
+            yd = fd.Dimension(letter="y", name="Year", items=[1990, 2000, 2010, 2020], dtype=int)
+            yds = fd.DimensionSet(dim_list=[yd]) if desc["flag"] else fd.DimensionSet(dim_list=[yd, x.dims[0]])
+            inputs["ydims"] = yds
+            if desc["flag"]:
+                df = pd.DataFrame({"value": [1.0, 2.0, 3.0, 4.0]}, index=list(yd.items))
+            else:
+                its = list(x.dims[0].items)
+                df = pd.DataFrame(np.arange(4.0 * len(its)).reshape(4, len(its)) + 1.0, index=list(yd.items), columns=its)
         inputs["df"] = df
     if op == "setitem_ndarray":
         nd = np.full(x.values.shape, 2.5)
@@ -157,7 +168,7 @@ def run_case(desc):
         d1 = x.to_df(index=desc["flag"])
         d1.iloc[:, -1] = SENT
     elif op == "from_df":
-        results.append(fd.FlodymArray.from_df(dims=x.dims, df=df))
+        results.append(fd.FlodymArray.from_df(dims=inputs.get("ydims", x.dims), df=df))
     elif op == "split":
         results.extend(x.split(xl[0]).values())
     elif op == "stack":
